@@ -142,9 +142,8 @@ def run_check(tier: str, seed: int, workers: Any) -> Dict[str, Any]:
 
 
 def replay(doc: Dict[str, Any]) -> List[Dict[str, Any]]:
-    unit = doc.get('unit')
-    if unit and isinstance(unit[0], list) and unit[0] and isinstance(unit[0][0], list) and unit[0][0] and \
-            isinstance(unit[0][0][0], list) and unit[0][0][0] and unit[0][0][0][0] in ('gate', 'child'):
+    from ._common import is_wc_unit
+    if is_wc_unit(doc.get('unit')):
         return wc_factory().replay(doc)
     return PROP.replay(doc)
 
